@@ -375,6 +375,22 @@ pub fn check_serialise(c: &SerialiseCase, info: &mut CaseInfo) -> Result<(), Str
 		spec.sans.push(SanSpec::Rfc822(v.text.clone()));
 		spec.sans.push(SanSpec::Uri(v.text.clone()));
 	}
+	// the same texts through the convenience constructor: every text that is not an IP literal is
+	// an IA5String (dNSName) holding exactly that text
+	if !c.san_texts.is_empty() {
+		info.class("san-texts-through-CertificateParams::new");
+		let p = rcgen::CertificateParams::new(c.san_texts.clone()).map_err(|e| format!("CertificateParams::new refuses the IA5 texts {:?}: {e}", c.san_texts))?;
+		if p.subject_alt_names.len() != c.san_texts.len() {
+			return Err(format!("CertificateParams::new made {} names from {} texts", p.subject_alt_names.len(), c.san_texts.len()));
+		}
+		for (t, made) in c.san_texts.iter().zip(&p.subject_alt_names) {
+			match (std::net::IpAddr::from_str(t), made) {
+				(Ok(a), rcgen::SanType::IpAddress(b)) if a == *b => {},
+				(Err(_), rcgen::SanType::DnsName(s)) if s.as_str() == t.as_str() => {},
+				_ => return Err(format!("CertificateParams::new turned the text {t:?} into {made:?}")),
+			}
+		}
+	}
 	let case = CertCase {
 		spec,
 		key: KeySpec { alg: KeyAlg::Ed25519, idx: 0, rsa_hash: RsaHash::Sha256, remote: !cfg!(feature = "crypto") },
@@ -440,7 +456,7 @@ fn serialise_random() -> BoxedStrategy<SerialiseCase> {
 pub fn def() -> PropertyDef {
 	PropertyDef {
 		id: "C13",
-		rule: "Exhaustive: every Unicode scalar value as a one-character string for each of the five restricted types (5 x 1 112 064), through TryFrom<&str>, TryFrom<String> and FromStr, against alphabet predicates transcribed from the property; every single UTF-16 unit (alone, after a high surrogate, before a low surrogate, after an ordinary unit, odd lengths) and every UTF-32 unit 0..0x110400 plus high ranges for the byte-level constructors; random multi-character mixed strings and random unit sequences (short ones, and 1..70 units with up to two ill-formed units at arbitrary positions); accepted values serialised in names (batches of 400 attributes; under the six named attribute types as well as custom ones; incl. two-letter codes, digit strings, the empty string) and IA5 values in the three IA5-typed SAN forms (incl. texts that read as IP literals, lengths around 127/255 octets) and decoded back under the expected tag. Non-trivial = within 2 code points of an alphabet boundary, surrogate-range inputs, mixed strings.",
+		rule: "Exhaustive: every Unicode scalar value as a one-character string for each of the five restricted types (5 x 1 112 064), through TryFrom<&str>, TryFrom<String> and FromStr, against alphabet predicates transcribed from the property; every single UTF-16 unit (alone, after a high surrogate, before a low surrogate, after an ordinary unit, odd lengths) and every UTF-32 unit 0..0x110400 plus high ranges for the byte-level constructors; random multi-character mixed strings and random unit sequences (short ones, and 1..70 units with up to two ill-formed units at arbitrary positions); accepted values serialised in names (batches of 400 attributes; under the six named attribute types as well as custom ones; incl. two-letter codes, digit strings, the empty string) and IA5 values in the three IA5-typed SAN forms (incl. texts that read as IP literals, lengths around 127/255 octets) and decoded back under the expected tag; the same texts given to CertificateParams::new must come back as dNSName values with exactly that text (IP literals as addresses). Non-trivial = within 2 code points of an alphabet boundary, surrogate-range inputs, mixed strings.",
 		assumptions: vec!["the alphabet predicates in spec.rs are a faithful transcription of the property statement", "the harness string decoder"],
 		subs: vec![
 			sweep_sub("scalar-sweep", scalar_chunks, check_scalar_chunk),
